@@ -225,7 +225,7 @@ def main():
     #      M = run_re vs implementation on PExec, V = chk_C02 on the implementation's trace,
     #      W = chk_C02 on the model's own trace.
     reent_cov = None
-    if prop in ("C01", "C02") and core_ok and not all(f in built for f in ("ResolveRe", "RunRe", "P_Re")):
+    if prop in ("C01", "C02") and core_ok and not all(f in built for f in ("ResolveRe", "RunRe", "P_Re", "P_Re2")):
         broken.append(("model", "ResolveRe / RunRe / P_Re (re-entrant user code, conservativity) do not compile"))
     elif prop in ("C01", "C02") and core_ok:
         # (C01: what a consumer receives — the PExec projection carries every argument — must also be what the
@@ -238,18 +238,24 @@ def main():
                    "Definition M := Eval vm_compute in mism_re_from PExec 0 all_re.",
                    "Definition V := Eval vm_compute in viol_all (fun c obs => chk_C02 (cs_hist c) obs) all_cases.",
                    "Definition W := Eval vm_compute in viol_all (fun c obs => chk_C02 (cs_hist c) obs) (map model_case_re all_re).",
-                   "Print M.", "Print V.", "Print W."]
+                   "Fixpoint hyp_ok_from (i : nat) (cs : list case_re) : list (nat * nat) := "
+                   "match cs with [] => [] | c :: t => (if P_Re2.case_re_ok c then [(i, 1)] else []) ++ hyp_ok_from (S i) t end.",
+                   "Definition K := Eval vm_compute in hyp_ok_from 0 all_re.",
+                   "Print M.", "Print V.", "Print W.", "Print K."]
 
         def re_eval(cs, ts):
             def one(lo):
-                src = emit.cases_file_re(list(zip(cs[lo:lo + 250], ts[lo:lo + 250])), extra="Spec Check Cases", defs=re_defs)
+                src = emit.cases_file_re(list(zip(cs[lo:lo + 250], ts[lo:lo + 250])), extra="Spec Check Cases P_Re2", defs=re_defs)
                 o = common.coq_eval(src, timeout=3000)
-                return tuple([(lo + a[0],) + tuple(a[1:]) for a in common.parse_pairs(common.parse_printed(o, nm))] for nm in "MVW")
+                return tuple([(lo + a[0],) + tuple(a[1:]) for a in common.parse_pairs(common.parse_printed(o, nm))] for nm in "MVWK")
             from concurrent.futures import ThreadPoolExecutor
             with ThreadPoolExecutor(max_workers=16) as ex:
                 parts = list(ex.map(one, range(0, len(cs), 250)))
-            return tuple([x for part in parts for x in part[k]] for k in range(3))
-        reM, reV, reW = re_eval(recases, retraces)
+            return tuple([x for part in parts for x in part[k]] for k in range(4))
+        reM, reV, reW, reK = re_eval(recases, retraces)
+        # histories that satisfy every hypothesis of Prop_C02.C02_holds_reentrant (P_Re2.case_re_ok):
+        # the theorem says the checker is silent on the model's trace; it must be on the implementation's too
+        hyp_ok = set(k[0] for k in reK)
 
         def unwound(ci, oi, code):
             """code 202 the model reproduces at the same operation, after an unrecovered panic: the panic of
@@ -264,6 +270,8 @@ def main():
                          model_impl_disagreements=len(set(m[0] for m in reM)),
                          checker_failures=len(reV_real), checker_failures_on_model_trace=len(reW),
                          unwound_bodies_reexecuted=len(reV) - len(reV_real),
+                         satisfying_the_theorems_hypotheses=len(hyp_ok),
+                         of_which_checker_failures=len([v for v in reV if v[0] in hyp_ok]),
                          note="bodies that call Invoke re-entrantly are modelled by ResolveRe/RunRe (oracle `nest`); model vs implementation "
                               "on PExec, chk_C02 on the implementation's trace and on the model's own trace; `unwound_bodies_reexecuted`: "
                               "code 202 reproduced by the model after an unrecovered panic of nested work unwound through a body "
